@@ -157,7 +157,8 @@ where
     /// Remove the coefficient of a power in the polynomial
     pub fn purge_coefficient(&mut self, power: usize) {
         match self.coefficients.len() {
-            len if len == power && len != 1 => {
+            len if power >= len => {}
+            len if len == power + 1 && len != 1 => {
                 self.coefficients.pop();
             }
             _ => {
